@@ -37,7 +37,7 @@ func init() {
 			"the strict validator harness/ref/smf.go (header length 6, ntrks == number of MTrk chunks, exact chunk lengths, exactly one end-of-track and last, canonical VLQs of at most 4 bytes, running status only directly after a channel event of the same track, no alien chunks, no trailing bytes)",
 			"for deltas above 0x0FFFFFFF (5-byte form accepted by the API) only the round trip is required, not validity (statement)",
 		},
-		Require: []string{"writefile_onto_existing", "writeto_file_at_offset", "files_validated", "vlq_values", "vlq_5byte_values", "bytes_emitted", "determinism_checks", "chunk_boundary_files", "length_vlq_boundaries", "running_status_events", "body_sizes_swept", "write_change_write_values", "writes_after_failed_write", "writes_into_other_destination_kinds"},
+		Require: []string{"writefile_onto_existing", "writeto_file_at_offset", "files_validated", "vlq_values", "vlq_5byte_values", "bytes_emitted", "determinism_checks", "chunk_boundary_files", "length_vlq_boundaries", "running_status_events", "body_sizes_swept", "write_change_write_values", "writes_after_failed_write", "writes_into_other_destination_kinds", "sizes_compared_after_failed_write"},
 		Run:     runC03,
 	})
 }
@@ -222,7 +222,12 @@ func runC03(c *mon.Ctx) {
 				}
 				w := &faultWriter{limit: off, short: mode == 1, full: mode == 2, err: writeFaultKinds[r.Intn(len(writeFaultKinds))]}
 				in["failure"] = fmt.Sprintf("destination fails at byte offset %d of %d (mode %d, %T)", off, size, mode, w.err)
-				_, err = a.s.WriteTo(w)
+				var nf int64
+				nf, err = a.s.WriteTo(w)
+				c.Count("sizes_compared_after_failed_write", 1)
+				if err != nil && nf != int64(w.accepted) {
+					c.Violation("size-after-failure", fmt.Sprintf("the destination failed at byte offset %d of %d (mode %d): it had received %d bytes, WriteTo reports size %d together with its error", off, size, mode, w.accepted, nf), in, w.accepted, nf)
+				}
 			case 3:
 				f, ferr := os.CreateTemp(c.Dir, "closed-*.mid")
 				if ferr != nil {
